@@ -15,6 +15,7 @@ import Proofs.ZoneFileCodecLink
 import Proofs.ZoneFileGenLine
 import Proofs.ZoneFileGenTTL
 import Proofs.ZoneFileInclude
+import Proofs.ZoneFileGenRadix
 import Proofs.ZoneFileTypeTok
 import Proofs.ZoneFileCodecA
 /-!
@@ -1049,6 +1050,33 @@ example (r0 : PState) (rest : List Nat) (hrel : r0.relativize = true) (hg : r0.g
     simp only [ls, List.mem_cons, List.mem_nil_iff, or_false] at hl
     rcases hl with rfl | rfl <;> exact ⟨rfl, rfl, by decide⟩
   · rw [hexp]; rfl
+
+/-! ### `$GENERATE` modifiers in the bases `o`, `x`, `X`, `n`, `N` -/
+
+/-- `_format_index`, bases `o` / `x` / `X`: a non-negative index is printed in radix 8 / 16 (lower-case digits for `x`,
+upper-case for `X`), left-filled with `0` up to the width; read back in that radix (`radixVal`, i.e. `int(s, 8|16)`) the
+text is the index, and it is at least `width` long -/
+theorem generate_format_radix (base n w : Nat) (hbase : base = 111 ∨ base = 120 ∨ base = 88) :
+    formatIndex (n : Int) base w =
+      List.replicate (w - (formatInt (n : Int) base).length) 48 ++ formatInt (n : Int) base ∧
+    radixVal (radixOf base) (formatIndex (n : Int) base w) 0 = n ∧ w ≤ (formatIndex (n : Int) base w).length :=
+  formatIndex_radix base n w hbase
+
+/-- `_format_index`, bases `n` / `N` (nibbles, for `ip6.arpa` owners): the hex text zero-filled to the width, reversed,
+one dot between digits, cut to `width` characters; `N` upper-cases it -/
+theorem generate_format_nibble (i : Int) (w : Nat) :
+    formatIndex i 110 w = (joinWith [46] ((zfill (formatInt i 120) w).reverse.map fun c => [c])).take w ∧
+    formatIndex i 78 w = (formatIndex i 110 w).map upperAscii :=
+  formatIndex_nibble i w
+
+/-- non-vacuity: `${0,4,x}` of 255 is `00ff`, `${0,3,X}` of 255 is `0FF`, `${0,4,o}` of 8 is `0010`, `${0,7,n}` of 0x1a2
+is `2.a.1.0`, and a side `h${0,3,x}` substitutes to `h0ff` -/
+example :
+    formatIndex 255 120 4 = s2l "00ff" ∧ formatIndex 255 88 3 = s2l "0FF" ∧ formatIndex 8 111 4 = s2l "0010" ∧
+    formatIndex 418 110 7 = s2l "2.a.1.0" ∧ formatIndex 418 78 7 = s2l "2.A.1.0" ∧
+    radixVal 16 (s2l "00ff") 0 = 255 ∧ radixVal 8 (s2l "0010") 0 = 8 ∧
+    (parseModify (s2l "h${0,3,x}")).map (fun m => substIndex (s2l "h${0,3,x}") m 255) = some (s2l "h0ff") := by
+  refine ⟨by rfl, by rfl, by rfl, by rfl, by rfl, by rfl, by rfl, by rfl⟩
 
 /-! ### `$INCLUDE file [origin]` -/
 
